@@ -373,7 +373,7 @@ pub fn minimise(check: &dyn Check, scn: &Value, rule: &str, max_execs: usize) ->
     let mut execs = 0usize;
     let mut scratch = Stats::new();
     'outer: loop {
-        let cands = check.shrink(&cur);
+        let cands = guarded(&cur, 0, || check.shrink(&cur));
         for cand in cands {
             if execs >= max_execs {
                 break 'outer;
@@ -460,8 +460,13 @@ static MAIN_SLOT: Mutex<Option<(String, Instant, u64)>> = Mutex::new(None);
 
 /// `check.run` on the main thread under the wall-clock watchdog.
 pub fn guarded_run(check: &dyn Check, scn: &Value, st: &mut Stats, idx: u64) -> RunResult {
+    guarded(scn, idx, || check.run(scn, st))
+}
+
+/// Anything that executes `scn` on the main thread (a check's `shrink` may do so as well).
+pub fn guarded<T>(scn: &Value, idx: u64, f: impl FnOnce() -> T) -> T {
     *MAIN_SLOT.lock().unwrap() = Some((scn.to_string(), Instant::now(), idx));
-    let r = check.run(scn, st);
+    let r = f();
     *MAIN_SLOT.lock().unwrap() = None;
     r
 }
